@@ -8,6 +8,7 @@ import (
 	"fmt"
 	"io"
 	"os"
+	"runtime/debug"
 	"strings"
 	"syscall"
 	"testing/iotest"
@@ -413,7 +414,9 @@ func init() {
 	// request at the right offset, and the full count back.  Output "ok" or the first discrepancy.
 	reg("swbigprobe", func(a []string) string {
 		size := int(mustI64(a[0]))
+		debug.FreeOSMemory() // the address-space limit of the harness process is a few gigabytes
 		buf := make([]byte, size)
+		defer debug.FreeOSMemory()
 		cw := &countW{}
 		sw := iohelper.NewSectionWriter(cw, 10, 1<<40)
 		n, err := sw.Write(buf)
